@@ -4,7 +4,7 @@ Every decoding entry point of the real crate runs on hostile inputs inside worke
 supervises (harness/src/bin/c04.rs: 256 KiB decoding stack, 1 GiB address space, 10 s deadline per case, wrapping
 allocator), on the optimised AND the debug-assertion build, with the buffer at all 8 memory phases:
 
-  VR validate_raw, UP Param decoder, UT typed decoder for the 271 catalogue types + borrowed / derived / macro types,
+  VR validate_raw, UP Param decoder, UT typed decoder for all catalogue types + borrowed / derived / macro types,
   BP MessageBodyParser::{get, get2..5, get_param, get_next_sig, sigs_left}, MarshalledMessageBody::validate,
      MarshalledMessage::unmarshall_all on a body made with from_parts (signature valid, requested type arbitrary),
   HD unmarshal_header / unmarshal_dynamic_header / unmarshal_next_message as get_next_message calls them.
@@ -603,8 +603,9 @@ def run(ctx):
     thorough = ctx.tier == "thorough"
     ctx.rule = ("case = one harness line (entry point VR|UP|UT|BP get..get5/param/validate/all|HD, byte order, memory phase 0..7 "
                 "cycled over all cases, offset, requested type / body signature, bytes), run on the release and the debug build in "
-                "supervised worker processes; generators: specification encodings and single-fault corruptions for all 271 catalogue "
-                "types and 27 borrowed/derived/macro types, valid-signature/requested-type mismatches, nesting bombs (variants 10..20000 "
+                "supervised worker processes; generators: specification encodings and single-fault corruptions for all catalogue "
+                "types (%d at this run) and %d borrowed/derived/macro types, the slice fast path at every memory phase," % (len(wg.catalogue()), len(EXTRA)) +
+                "  valid-signature/requested-type mismatches, nesting bombs (variants 10..20000 "
                 "[thorough 100000], variant-array towers, struct/array towers at the 32/32 signature limits), length bombs (2^26-1..2^32-1 "
                 "with 0..32 bytes following), random bytes, corrupted and random headers; non-trivial = non-empty input; distinct = "
                 "distinct case lines. Predicate per case: status in {ok, err}, peak heap <= K*len + 64 KiB (K = 32, Param API: "
